@@ -343,6 +343,15 @@ fn synth(text: &str, v3: bool) -> Vec<Zone> {
             let mut fat = vec![lmt];
             fat.extend(explicit(1970, 2037));
             tables.push(fat);
+            // a table whose last transitions repeat the type already in force (the table, not the
+            // footer, governs up to the last of them - several seasons during which the rule would switch)
+            let mut noop = vec![lmt];
+            noop.extend(explicit(1970, 1971));
+            if let Some(&(_, ty)) = noop.last() {
+                noop.push((unix_of(1975, 1, 15, 12), ty));
+                noop.push((unix_of(1980, 1, 15, 12), ty));
+                tables.push(noop);
+            }
             for ver in &versions {
                 for t in &tables {
                     // the table must hand over consistently: last transition's offset equals the rule's at that time
@@ -423,7 +432,7 @@ pub fn run(ctx: &Ctx) -> i32 {
     });
     let foot = footers(ctx.thorough);
     rep.extra.insert("synth_footers".into(), json!(foot.len()));
-    rep.sweep("synthesised: footers (fixed, Mm.w.d / Jn / n rules, times incl. v3 extensions, both hemispheres) x versions x table shapes", foot.len() as u64, "one index per footer; each expands to versions {1,2,3} x tables {none, slim, single, fat}", |i, acc| {
+    rep.sweep("synthesised: footers (fixed, Mm.w.d / Jn / n rules, times incl. v3 extensions, both hemispheres) x versions x table shapes", foot.len() as u64, "one index per footer; each expands to versions {1,2,3} x tables {none, slim, single, fat, trailing no-op transitions}", |i, acc| {
         let (text, v3) = &foot[i as usize];
         let zs = synth(text, *v3);
         if zs.is_empty() {
